@@ -665,6 +665,9 @@ func injectFault(t *rapid.T, c *Case) {
 	}
 	n := nodes[uni(t, "faultnode", len(nodes))]
 	n.Fault = kind
+	if kind == tr.FaultScopeInvalid {
+		n.FaultAt = uni(t, "invalidvariant", 3)
+	}
 	if kind == tr.FaultScopeUnsupported {
 		// the unsupported kind alone, after / before the supported one, twice, ...
 		n.FaultAt = uni(t, "scopevariant", len(tr.ScopeUnsupportedVariants))
@@ -1225,6 +1228,185 @@ func TestReconfigureConcurrent(t *testing.T) {
 	propRace.Check(t, kit.N(40, 120))
 }
 
+// ---------------------------------------------------------------- the other registered filters
+
+// The statement speaks of "the registered groups, filters and modifiers":
+// port.Filter and header.RegexFilter are registered filters too. They get a
+// matrix of their own, with signatures made from the filter kind, the side and
+// the form of the message, so that what is on record for one form does not
+// hide another.
+
+func extraFilter(c Case) *tr.Node {
+	var f *tr.Node
+	c.Tree.Walk(func(n *tr.Node, _ int) {
+		if n.T == tr.PortFilter || n.T == tr.RegexFilter || n.T == tr.HeaderFilter {
+			f = n
+		}
+	})
+	return f
+}
+
+func extraForm(f *tr.Node, rq *tr.Req) string {
+	if f.T == tr.HeaderFilter {
+		return "content-length-zero"
+	}
+	if f.T == tr.PortFilter {
+		v6 := strings.HasPrefix(rq.Host, "[")
+		switch {
+		case v6 && tr.URLPort(rq.Host) == "":
+			return "ipv6-literal-without-port"
+		case v6:
+			return "ipv6-literal-with-port"
+		case tr.URLPort(rq.Host) == "":
+			return "url-without-port"
+		}
+		return "url-with-port"
+	}
+	name := http.CanonicalHeaderKey(f.P["header"])
+	switch {
+	case name == "Host":
+		return "host-field"
+	case len(rq.Header[name]) == 0:
+		return "header-absent"
+	case len(rq.Header[name]) > 1:
+		return "repeated-header"
+	}
+	return "single-value"
+}
+
+func runExtra(c Case) kit.Verdict {
+	f := extraFilter(c)
+	kind := map[string]string{tr.PortFilter: "port-filter", tr.RegexFilter: "regex-filter", tr.HeaderFilter: "header-filter"}[f.T]
+	var out kit.Verdict
+	r, err := parse.FromJSON(c.text())
+	if c.mustReject() {
+		if err == nil {
+			where := "modifier"
+			if f.Else != nil && f.Else.Fault != "" {
+				where = "else"
+			}
+			out.Addf("C12/reject/"+c.faultName()+"-in-"+where+"-of-"+kind+"/configuration-accepted", "configuration with fault %q in the %s branch of a %s was accepted: %s", c.faultName(), where, f.T, c.text())
+		}
+		return out
+	}
+	if err != nil {
+		return kit.Failf("C12/parse/valid-tree/rejected", "valid configuration rejected with %v: %s", err, c.text())
+	}
+	for i, p := range c.Msgs {
+		v := applyPair("eval", c.Tree, r.RequestModifier(), r.ResponseModifier(), p)
+		// which branch does the tree say, per side?
+		in := &tr.Interp{Branches: map[int]string{}}
+		rq := p.Req.Clone()
+		in.Request(c.Tree, rq)
+		rs := p.Res.Clone()
+		rs.Req = rq
+		in.Response(c.Tree, rs)
+		branches := in.Branches[f.ID] // e.g. "TF": request side true, response side false
+		for si, side := range []string{"request", "response"} {
+			var errDiff, otherDiff *kit.Failure
+			for k := range v {
+				if strings.Contains(v[k].Sig, "/"+side+"/") {
+					if strings.HasSuffix(v[k].Sig, "errors-differ") {
+						errDiff = &v[k]
+					} else {
+						otherDiff = &v[k]
+					}
+				}
+			}
+			form := side + "-" + extraForm(f, &p.Req)
+			holds := si < len(branches) && branches[si] == 'T'
+			switch {
+			case errDiff != nil:
+				out.Addf("C12/"+kind+"/"+form+"/error-instead-of-branch", "message %d: %s\nconfiguration: %s", i, errDiff.Msg, c.text())
+			case otherDiff != nil && !holds && f.Else != nil:
+				out.Addf("C12/"+kind+"/else-branch/not-run", "message %d (%s): the condition does not hold and the else branch did not run: %s\nconfiguration: %s", i, form, otherDiff.Msg, c.text())
+			case otherDiff != nil && holds:
+				out.Addf("C12/"+kind+"/"+form+"/condition-holds-but-modifier-not-applied", "message %d: %s\nconfiguration: %s", i, otherDiff.Msg, c.text())
+			case otherDiff != nil:
+				out.Addf("C12/"+kind+"/"+form+"/behaviour-differs", "message %d: %s\nconfiguration: %s", i, otherDiff.Msg, c.text())
+			}
+		}
+	}
+	return out
+}
+
+var propExtra = &kit.Prop[Case]{
+	ID: "C12", Name: "enum-port-regex-filters",
+	Rule: "ALL of: port.Filter{80,443,8080} x {http,https} x authority {name, name:80, name:8080, [::1], [::1]:8080} x {with, without else}; header.RegexFilter{X-A|x-a|Host} x {^1$, example} x request header {absent, 1, 2, [2 1]} x {with, without else}; each inside fifo[probe, filter{then probe, else probe}, probe] on one request/response pair; plus header.Filter{Content-Length, 0} on a response carrying Content-Length: 0; plus an unknown modifier in the modifier / else branch of port.Filter / header.RegexFilter (must be rejected); non-trivial = all",
+	Run:  runExtra,
+}
+
+func TestEnumExtraFilters(t *testing.T) {
+	probe := func(id int) *tr.Node {
+		return &tr.Node{ID: id, T: tr.HeaderAppend, P: map[string]string{"name": "X-Verif-Trace", "value": fmt.Sprintf("t%d", id)}}
+	}
+	wrap := func(f *tr.Node, withElse bool) *tr.Node {
+		f.ID, f.Then = 2, probe(3)
+		if withElse {
+			f.Else = probe(4)
+		}
+		return &tr.Node{ID: 1, T: tr.Fifo, Kids: []*tr.Node{probe(5), f, probe(6)}}
+	}
+	pair := func(scheme, host string, xa []string) Pair {
+		p := Pair{Req: tr.Req{Method: "GET", Scheme: scheme, Host: host, Path: "/", HostH: host, Header: map[string][]string{}},
+			Res: tr.Res{Status: 200, Header: map[string][]string{}}}
+		if xa != nil {
+			p.Req.Header["X-A"] = xa
+		}
+		return p
+	}
+	propExtra.Enumerate(t, func(yield func(Case) bool) {
+		for _, withElse := range []bool{false, true} {
+			for _, port := range []int{80, 443, 8080} {
+				for _, scheme := range []string{"http", "https"} {
+					for _, host := range []string{"example.com", "example.com:80", "example.com:8080", "[::1]", "[::1]:8080"} {
+						c := Case{Tree: wrap(&tr.Node{T: tr.PortFilter, N: port}, withElse), Cut: -1, Msgs: []Pair{pair(scheme, host, nil)}}
+						if !yield(c) {
+							return
+						}
+					}
+				}
+			}
+			for _, name := range []string{"X-A", "x-a", "Host"} {
+				for _, re := range []string{"^1$", "example"} {
+					for _, xa := range [][]string{nil, {"1"}, {"2"}, {"2", "1"}} {
+						c := Case{Tree: wrap(&tr.Node{T: tr.RegexFilter, P: map[string]string{"header": name, "regex": re}}, withElse), Cut: -1, Msgs: []Pair{pair("http", "example.com", xa)}}
+						if !yield(c) {
+							return
+						}
+					}
+				}
+			}
+		}
+		// header.Filter{Content-Length, "0"} on a response that carries Content-Length: 0
+		for _, withElse := range []bool{false, true} {
+			p := pair("http", "example.com", nil)
+			p.Req.CL, p.Res.CL = 0, 0
+			c := Case{Tree: wrap(&tr.Node{T: tr.HeaderFilter, P: map[string]string{"name": "Content-Length", "value": "0"}}, withElse), Cut: -1, Msgs: []Pair{p}}
+			if !yield(c) {
+				return
+			}
+		}
+		for _, kind := range []string{tr.PortFilter, tr.RegexFilter} {
+			for _, inElse := range []bool{false, true} {
+				f := &tr.Node{T: kind, N: 80, P: map[string]string{"header": "X-A", "regex": "^1$"}}
+				if kind == tr.PortFilter {
+					f.P = nil
+				}
+				root := wrap(f, true)
+				if inElse {
+					f.Else.Fault = tr.FaultUnknownName
+				} else {
+					f.Then.Fault = tr.FaultUnknownName
+				}
+				if !yield(Case{Tree: root, Cut: -1}) {
+					return
+				}
+			}
+		}
+	})
+}
+
 // ---------------------------------------------------------------- registration racing nested parses
 
 // RegRaceCase: Parsers goroutines keep posting a nested valid configuration
@@ -1307,5 +1489,5 @@ func TestZRegisterConcurrent(t *testing.T) {
 }
 
 func TestReplay(t *testing.T) {
-	kit.Replay(t, propTree, propEnum, propHistory, propHTTPHistory, propRace, propRegRace)
+	kit.Replay(t, propTree, propEnum, propHistory, propHTTPHistory, propRace, propRegRace, propExtra)
 }
